@@ -118,10 +118,32 @@ pub const CASE_SPECIAL: &[char] = &[
 
 pub const MISC: &[char] = &['\0', '"', '\\', '/', '\u{7f}', '\u{200B}', '\u{FEFF}', '😀', '𝔘', '\u{10FFFF}', '\u{E000}', 'é', '中', '-', '0', '9'];
 
+/// EVERY scalar value whose upper- or lower-case mapping is more than one char, plus every
+/// titlecase-like char (changed by a case mapping although it is neither `is_uppercase` nor
+/// `is_lowercase`). Computed once by scanning all of Unicode in code-point order (deterministic).
+pub fn case_expanding() -> &'static [char] {
+    static TABLE: std::sync::LazyLock<Vec<char>> = std::sync::LazyLock::new(|| {
+        let mut v = Vec::new();
+        for cp in 0..=0x10FFFFu32 {
+            let Some(c) = char::from_u32(cp) else { continue };
+            let up = c.to_uppercase();
+            let lo = c.to_lowercase();
+            let expands = up.len() > 1 || lo.len() > 1;
+            let odd = !c.is_uppercase() && !c.is_lowercase() && (c.to_uppercase().next() != Some(c) || c.to_lowercase().next() != Some(c));
+            if expands || odd {
+                v.push(c);
+            }
+        }
+        v
+    });
+    &TABLE
+}
+
 pub fn gen_char(rng: &mut Rng) -> char {
-    match rng.below(12) {
+    match rng.below(13) {
         0 => *rng.pick(WHITESPACE),
         1 | 2 => *rng.pick(CASE_SPECIAL),
+        12 => *rng.pick(case_expanding()),
         3 => *rng.pick(MISC),
         4 => (b'A' + rng.below(26) as u8) as char,
         5 => (b'0' + rng.below(10) as u8) as char,
@@ -235,7 +257,9 @@ pub const F64_SPECIALS: &[f64] = &[
 ];
 
 pub fn gen_f64(rng: &mut Rng, lo: f64, hi: f64) -> f64 {
-    match rng.below(10) {
+    match rng.below(11) {
+        // f32-grid values widened to f64 (their shortest decimal differs between the two widths)
+        10 => *rng.pick(F32_SPECIALS) as f64,
         0 | 1 => *rng.pick(F64_SPECIALS),
         2 => lo,
         3 => hi,
@@ -250,8 +274,28 @@ pub fn gen_f64(rng: &mut Rng, lo: f64, hi: f64) -> f64 {
     }
 }
 
+pub const F32_SPECIALS: &[f32] = &[
+    f32::MAX,
+    f32::MIN,
+    f32::MIN_POSITIVE,
+    -f32::MIN_POSITIVE,
+    1e-45,
+    -1e-45,
+    3.4028233e38,
+    f32::EPSILON,
+    16777216.0,
+    16777217.0,
+    0.1,
+    36.6,
+    0.99999994,
+    1.0000001,
+    f32::INFINITY,
+    f32::NEG_INFINITY,
+];
+
 pub fn gen_f32(rng: &mut Rng, lo: f32, hi: f32) -> f32 {
-    match rng.below(10) {
+    match rng.below(11) {
+        10 => *rng.pick(F32_SPECIALS),
         0 | 1 => *rng.pick(F64_SPECIALS) as f32,
         2 => lo,
         3 => hi,
